@@ -20,7 +20,9 @@ EXPLANATION = (
     "the driver's permitted reasons: already seen; (minimal-space) no uncovered minimal trap space lies under the "
     "current node, with the uncovered list shrunk only by exact matches of expanded minimal nodes; (attractor-seed) an "
     "empty, constant-limit>=1 enumeration over the successor's own net avoiding only motifs of expanded siblings; "
-    "(target) the node is disjoint from the target or strictly inside it; (block) the node is already expanded. "
+    "(target) the node is disjoint from the target or strictly inside it; (block) the node is already expanded; a path that abandons successors under a limit must make "
+    "the driver return False, and a successor list truncated at the motif limit must never be expanded (engines of "
+    "C15-E3/E5). "
     "(K) skip edges: at every site that marks a node skipped, the trap list comes from trappist(problem='min') without "
     "limit/avoidance on the node's (or root's) own net joined with that space, the loop ranges over the whole list, and "
     "a membership guard, if present, is exactly is_subspace(minimal trap, node space) in that argument order. "
@@ -47,9 +49,13 @@ LEVEL_DRIVERS = {
 def run(ck: Check) -> None:
     g_dfs(ck, "G")
     g_level(ck, "G")
+    from . import c15
+    from .c02 import _Alias
+    c15.e3(_Alias(ck, "E3", "G"))  # an expansion that abandons work must not report completion
+    c15.e5(_Alias(ck, "E5", "G"))  # a truncated successor list must not be expanded
     skip_edges(ck, "K")
     blocks(ck, "B")
-    ck.floor("G", 12)
+    ck.floor("G", 24)
     ck.floor("K", 3)
     ck.floor("B", 3)
 
